@@ -599,11 +599,13 @@ pub fn explore_filtered<O>(
 ) -> (usize, bool) {
     // stack of (prefix, deviations used)
     let mut stack: Vec<(Vec<OpDesc>, usize)> = vec![(Vec::new(), 0)];
+    let started = Instant::now();
     let mut execs = 0usize;
     let mut capped = false;
     let mut top_level = 0usize;
     while let Some((prefix, used)) = stack.pop() {
-        if execs >= max_execs {
+        let wall_cap: f64 = std::env::var("VERIF_WALL_CAP").ok().and_then(|s| s.parse().ok()).unwrap_or(f64::MAX);
+        if execs >= max_execs || started.elapsed().as_secs_f64() > wall_cap {
             capped = true;
             break;
         }
